@@ -975,8 +975,10 @@ class Interp:
         ct = self._ctors.get(T.strip_generics(fn)) or self._ctors.get(fn)
         if ct is not None:
             return ("adt", ct[0], ct[1], tuple((str(i), a) for i, a in enumerate(args)))
-        if s2 in ("Option::Some",):
+        if s2 in ("Option::Some",) or (T.short(fn, 1) == "Some" and "prelude" in fn and len(args) == 1):
             return some(args[0])
+        if T.short(fn, 1) in ("Ok", "Err") and "prelude" in fn and len(args) == 1:
+            return ok(args[0]) if T.short(fn, 1) == "Ok" else err(args[0])
         if s2 in ("Result::Ok",):
             return ok(args[0])
         if s2 in ("Result::Err",):
